@@ -602,18 +602,13 @@ func shapeOf(d Data) shape {
 }
 
 // String names the construct for failure classes: the spec kind decoding the
-// generated blocks, the category of the for_each collection and the nesting.
+// generated blocks and the nesting (and whether the collection is marked).
 func (s shape) String() string {
-	cat := "known-collection"
-	switch {
-	case strings.HasPrefix(s.collKind, "marked-"):
-		cat = "marked-collection"
-	case strings.Contains(s.collKind, "unknown"):
-		cat = "unknown-collection"
-	case s.collKind == "null" || s.collKind == "scalar":
-		cat = "invalid-collection"
+	c := s.xkind + "." + s.nested
+	if strings.HasPrefix(s.collKind, "marked-") {
+		c += ".marked-collection"
 	}
-	return s.xkind + "." + cat + "." + s.nested
+	return c
 }
 
 // Full is the detailed shape used in signatures.
@@ -823,7 +818,7 @@ func judge(c engine.Case) engine.Outcome {
 		if only.err != impl.err || !only.val.RawEquals(impl.val) {
 			which = "expand-variables"
 		}
-		return engine.Fail("c18.reported-variables-insufficient."+which+"."+sh.String(),
+		return engine.Fail("c18.reported-variables-insufficient."+which+"."+sh.iter+"-iterator",
 			"ExpandVariablesHCLDec roots %v, decode roots %v\nfull context:    error=%v %s value=%s\npruned contexts: error=%v %s value=%s\n%s",
 			keys(expNames), keys(decNames), impl.err, impl.diag, vfmt.V(impl.val), pr.err, pr.diag, vfmt.V(pr.val), desc())
 	}
